@@ -397,7 +397,19 @@ func checkTrans(c transCase, o *pbt.Rec) pbt.Verdict {
 		if got.data != want.data || got.errs != want.errs {
 			return pbt.Bad("the long-lived engine (plan cache, earlier requests) answers differently from a fresh engine%s", ctx("shared default", got))
 		}
-		if fmt.Sprint(got.reqs) != fmt.Sprint(want.reqs) {
+		// two fetches on one response path see each other's merged items, so which of them finds
+		// something to send depends on the completion order of that run: request sets are only
+		// compared for plans without such twins (the response is compared always)
+		twins := false
+		if p, err := shared.Plan(op); err == nil {
+			if sp, ok := p.(*plan.SynchronousResponsePlan); ok && sp.Response != nil && sp.Response.Fetches != nil {
+				twins = ftree.PathTwins(sp.Response.Fetches)
+			}
+		}
+		if twins {
+			o.Label("plan-with-path-twins(request-sets-not-compared)")
+		}
+		if !twins && fmt.Sprint(got.reqs) != fmt.Sprint(want.reqs) {
 			return pbt.Bad("the long-lived engine sends different subgraph requests than a fresh engine for the same request%s", ctx("shared default", got))
 		}
 		if first, seen := seenPrint[op.Query]; seen && first != op.VarsJSON() {
@@ -412,6 +424,9 @@ func checkTrans(c transCase, o *pbt.Rec) pbt.Verdict {
 				return pbt.Bad("with options %s the engine fails on a request the default engine answers: %s%s", name, a.bad, ctx(name, a))
 			}
 			if a.data != want.data {
+				if twins && optionSets[oi].o.ScheduleFetches {
+					return pbt.BadKnown("C09-scheduled-twin-fetch-runs-before-sibling-producer", "option set %s changes the response data%s", name, ctx(name, a))
+				}
 				return pbt.Bad("option set %s changes the response data%s", name, ctx(name, a))
 			}
 			if (a.nerrs == 0) != (want.nerrs == 0) {
